@@ -67,6 +67,14 @@ pub struct Proc {
     pub addrs: Vec<SocketAddr>,
 }
 
+impl Proc {
+    /// SIGKILL, then reap
+    pub fn kill9(&mut self) {
+        let _ = self.child.kill();
+        let _ = self.child.wait();
+    }
+}
+
 impl Drop for Proc {
     fn drop(&mut self) {
         let _ = self.child.kill();
@@ -422,7 +430,7 @@ pub fn run(tier: Tier, seed: u64) -> Report {
         return rep;
     }
     let max = tier.pick(14, 30);
-    let r = engine::explore("C17", "binary", seed, tier.pick(96, 3000), || bcase(max), check);
+    let r = engine::explore("C17", "binary", seed, tier.pick(192, 3000), || bcase(max), check);
     rep.absorb("configurations", r);
     rep
 }
